@@ -80,6 +80,13 @@ def shape_ops(scope, spelling, urikey, kind, mask, idmode, local_id="r1"):
 
 
 PROV_ATTR_NAMES = [("P", l, Q("prov")) for l in ("type", "label", "value", "location", "role")]
+# an attribute name in the XML Schema namespace (PROV-XML binds 'xsd' to the URI without '#')
+XSD_ATTR_NAME = ("X", "maxLength", Q("xsd"))
+# values that compare equal in Python but differ in kind, placed on DIFFERENT records / attributes
+# (legal: the quantifier only excludes them inside one attribute)
+ACROSS = [("i_1", "b_T"), ("b_T", "i_1"), ("i_1", "f_1"), ("f_1", "i_1"), ("b_T", "f_1"), ("f_1", "b_T"),
+          ("i_0", "b_F"), ("b_F", "i_0"), ("i_0", "f_0"), ("f_0", "b_F"), ("f_negzero", "f_0"), ("s_1", "i_1"),
+          ("s_True", "b_T"), ("d_utc", "d_naive")]
 
 PAIRS = [("s_a", "i_2"), ("i_2", "f_2_5"), ("b_T", "s_True"), ("l_lang", "s_a"), ("q_exA", "u_plain"),
          ("s_a", "s_quote"), ("i_1", "i_2"), ("d_naive", "d_utc"), ("s_1", "i_2"), ("l_exdt", "s_a")]
@@ -100,9 +107,14 @@ def extras(tier, which, spelling, urikey):
         for pn in PROV_ATTR_NAMES:
             for v in values.VALUES:
                 out.append((("at", pn, v),))
+        for v in values.VALUES:
+            out.append((("at", XSD_ATTR_NAME, v),))
         for a, b in PAIRS:
             out.append((("at", k, a), ("at", k, b)))
             out.append((("at", PROV_ATTR_NAMES[0], a), ("at", PROV_ATTR_NAMES[0], b)))
+        k2 = (urikey, "k2", spelling)
+        for a, b in ACROSS:
+            out.append((("at", k, a), ("at", k2, b)))
     return out
 
 
@@ -125,6 +137,17 @@ def cases(tier):
                     if idmode == "twice":
                         ops = ops + (rec,) + ex[:1]
                     out.append(("%s|%s%r|%s" % (env, kind, mask, idmode), ops))
+        # (1b) every record kind x every PROV class name as prov:type (subtype element names in PROV-XML,
+        #      qualified forms in PROV-O)
+        for kind, mask in allshapes:
+            if any(m is False for m in mask):
+                continue
+            rel = kind in RELATIONS
+            for v in values.VALUES:
+                if not v.startswith("q_prov"):
+                    continue
+                rec = shape_ops(scope, spelling, urikey, kind, mask, "id" if not rel or kind not in machine.NO_ID_FACTORY else "anon")
+                out.append(("%s|%s|prov-class-type" % (env, kind), prelude + (rec, ("at", PROV_ATTR_NAMES[0], v))))
         # (2) every value / attribute name / pair x representative shapes
         shapes2 = REP_SHAPES if tier == "thorough" else REP_SHAPES[:3]
         for kind, mask in shapes2:
@@ -137,6 +160,13 @@ def cases(tier):
                         continue
                     rec = shape_ops(scope, spelling, urikey, kind, mask, idmode)
                     out.append(("%s|%s|%s|values" % (env, kind, idmode), prelude + (rec,) + ex))
+                # the same attribute on two different records holding equal-but-different-kind values
+                k = (urikey, "k", spelling)
+                for a, b in ACROSS:
+                    r1 = shape_ops(scope, spelling, urikey, kind, mask, idmode, "r1")
+                    r2 = shape_ops(scope, spelling, urikey, "entity", (), "id", "r2")
+                    out.append(("%s|%s|%s|across-records" % (env, kind, idmode),
+                                prelude + (r1, ("at", k, a), r2, ("at", k, b))))
     return out
 
 
